@@ -15,7 +15,8 @@ def snap(tag, info=None):
     state["busy"] = True
     try:
         k = state["n"]; state["n"] += 1
-        shutil.copytree(ROOT, os.path.join(SNAP, f"{k:05d}"))
+        if not A.get("nosnap"):
+            shutil.copytree(ROOT, os.path.join(SNAP, f"{k:05d}"))
         state["log"].append({"k": k, "tag": tag, **(info or {})})
     finally:
         state["busy"] = False
@@ -71,6 +72,23 @@ if A.get("xdev"):
         return f
     os.rename = _xdev(os.rename)
     os.replace = _xdev(os.replace)
+
+if A.get("fail_write") is not None:
+    # the disk fills up: the k-th metadata temp file of this session cannot be written (ENOSPC); the session dies of the exception
+    import builtins, errno as _errno
+    _real_open = builtins.open
+    _cnt_fw = {"k": 0}
+    def _open(file, mode="r", *a, **k):
+        try:
+            name = os.path.basename(os.fspath(file))
+        except TypeError:
+            name = ""
+        if name.startswith("update_") and any(c in mode for c in "wxa") and os.path.abspath(os.fspath(file)).startswith(ROOT + "/"):
+            _cnt_fw["k"] += 1
+            if _cnt_fw["k"] == A["fail_write"]:
+                raise OSError(_errno.ENOSPC, "No space left on device", os.fspath(file))
+        return _real_open(file, mode, *a, **k)
+    builtins.open = _open
 
 import sedpack.io.dataset_writing as DW  # noqa: E402
 _cnt = {"k": A.get("uuid_base", 0)}
